@@ -51,7 +51,7 @@ def install_memo():
             _memo[key] = dict(orig(self, list_of_keys=list_of_keys, dict_index=dict_index, **kw))
         else:
             _memo_stats["hits"] += 1
-        return Params(dict(_memo[key]))
+        return Params({k: (copy.copy(v) if isinstance(v, (list, dict)) else v) for k, v in _memo[key].items()})
 
     get_params._orig = orig
     param.Reparsable.get_params = get_params
@@ -69,15 +69,13 @@ def memo_selfcheck(sample: int = 25) -> int:
         for typ, form in steps:
             if typ == "ParsedFile":
                 r.steps.append(param.ParsedFile(form.replace("include ", "", 1).strip()))
-            elif typ == "ParsedStr":
-                r.steps.append(param.ParsedStr(form))
             else:
-                continue
-        if len(r.steps) != len(steps):
-            continue
+                # strings and dictionaries are both fed to the parser through their parsable form
+                r.steps.append(param.ParsedStr(form))
         fresh = dict(orig(r, list_of_keys=list(keys) if keys else None, dict_index=dict_index))
         if fresh != cached:
-            raise common.HarnessError("memoised Cartesian parse differs from the original")
+            diff = {k: (fresh.get(k), cached.get(k)) for k in set(fresh) | set(cached) if fresh.get(k) != cached.get(k)}
+            raise common.HarnessError("memoised Cartesian parse differs from the original: " + str(diff)[:500])
         checked += 1
     return checked
 
